@@ -9,7 +9,10 @@ struct caps_t { bool has_mps; uint32_t mps; bool has_mq; uint8_t mq; bool has_ra
 
 // the client's OWN limits, sent in CONNECT, bind the broker, not the client: they must not leak into what the client may send
 static void own_limits(W& w) {
-  if (!vk_choose(2)) return;
+  int kind = (int)vk_choose(3); if (kind == 0) return;
+  // ... or the client is configured with an authenticator: the CONNACK is then processed through the authenticator's final step,
+  // and the capabilities it announces apply just the same
+  if (kind == 2) { w.c.authenticator(vk_authenticator{1, 2, false}); vk_reach("authenticator-configured"); return; }
   uint16_t tam = vk_sym_u16(); vk_assume(tam >= 1); uint16_t rm = vk_sym_u16(); vk_assume(rm >= 1); uint32_t mps = vk_sym_u32(); vk_assume(mps >= 16 && mps <= 64);
   connect_props cp; cp[prop::topic_alias_maximum] = tam; cp[prop::receive_maximum] = rm; cp[prop::maximum_packet_size] = mps;
   w.c.connect_properties(cp); vk_reach("own-limits-configured");
